@@ -72,7 +72,7 @@ def oracle(ctx, search):
         fails.append(Fail(key="evap-day-witness-not-as-stated", what="the real Water kernel does not behave on the witness input as "
                           "C06_lower_bound_day_evap_refuted states for the model: %s" % wit[:1]))
     for l in orc + [t for t in torc + orc1 if t.startswith(("wg-", "state-not-finite", "fc-below-gw", "fc-after-gw-change", "substep-"))]:
-        fails.append(Fail(key=re.sub(r"(value|wg|start|end|fc|limit|maxcaps|w|porges|soil-fc|pore-volume|wmin|soil-wmin|zeit|grw)=\S+", "", l)[:100].strip(), what=l))
+        fails.append(Fail(key=re.sub(r"(value|wg|start|end|fc|limit|maxcaps|w|porges|soil-fc|pore-volume|wmin|soil-wmin|zeit|grw|increment)=\S+", "", l)[:100].strip(), what=l))
     days = [x for x in tcases if x["k"] == "day"]
     ctx.extra["traced_days_checked_for_bounds_and_finiteness"] = len(days)
     # hypothesis of C06_lower_bound_day_nonevap observed on the real runs
